@@ -160,8 +160,10 @@ def i_XORI(ins, fmap):
 def i_SLT(ins, fmap):
     dst, rs1, rs2 = ins.operands
     if dst is not zero:
+        # _t is a value already (both operands read through the map):
+        # it must not be evaluated in the map a second time
         _t = fmap(rs1).signed() < fmap(rs2).signed()
-        fmap[dst] = fmap(tst(_t, cst(1, 64), cst(0, 64)))
+        fmap[dst] = tst(_t, cst(1, 64), cst(0, 64))
 
 
 @__npc
@@ -176,8 +178,10 @@ def i_SLTU(ins, fmap):
 def i_SLTI(ins, fmap):
     dst, rs1, rs2 = ins.operands
     if dst is not zero:
+        # _t is a value already (both operands read through the map):
+        # it must not be evaluated in the map a second time
         _t = fmap(rs1).signed() < fmap(rs2).signed()
-        fmap[dst] = fmap(tst(_t, cst(1, 64), cst(0, 64)))
+        fmap[dst] = tst(_t, cst(1, 64), cst(0, 64))
 
 
 @__npc
@@ -345,8 +349,9 @@ def i_BNE(ins, fmap):
 
 def i_BLT(ins, fmap):
     r1, r2, imm = ins.operands
+    # _t is a value already: only the two targets are read through the map
     _t = fmap(r1).signed() < fmap(r2).signed()
-    fmap[pc] = fmap(tst(_t, pc + imm, pc + ins.length))
+    fmap[pc] = tst(_t, fmap(pc + imm), fmap(pc + ins.length))
 
 
 def i_BLTU(ins, fmap):
@@ -356,8 +361,9 @@ def i_BLTU(ins, fmap):
 
 def i_BGE(ins, fmap):
     r1, r2, imm = ins.operands
+    # _t is a value already: only the two targets are read through the map
     _t = fmap(r1).signed() >= fmap(r2).signed()
-    fmap[pc] = fmap(tst(_t, pc + imm, pc + ins.length))
+    fmap[pc] = tst(_t, fmap(pc + imm), fmap(pc + ins.length))
 
 
 def i_BGEU(ins, fmap):
